@@ -110,6 +110,17 @@ def translate():
             st = {'ok': False, 'error': 'translator crashed: ' + (p.stderr or p.stdout)[-1500:], 'files': {}}
         if not st.get('ok') and p.stderr:
             st['stderr'] = p.stderr[-1500:]
+        # second translator: the FlatSet decision logic (flatset.hpp -> Gen/FlatSetGen.lean)
+        q = sh([sys.executable, os.path.join(ROOT, 'translator', 'flatset2lean.py'), '--include', INCLUDE,
+                '--out', os.path.join(LEAN, 'AmcVerif', 'Gen', 'FlatSetGen.lean')])
+        try:
+            st2 = json.loads(q.stdout.strip().splitlines()[-1])
+        except Exception:
+            st2 = {'ok': False, 'error': (q.stdout + q.stderr)[-1500:]}
+        st['flatset'] = st2
+        if q.returncode != 0 or not st2.get('ok'):
+            st['ok'] = False
+            st['error'] = (st.get('error') or '') + ' | flatset2lean: ' + (st2.get('error') or (q.stdout + q.stderr)[-800:])
         return st
 
 def lake_build(targets):
